@@ -67,17 +67,28 @@ inline void walkInstance(Walk& w, instance_t& i, const void* self, const std::st
         else w.bad("process:type-kind", n);
     }
     // unbound parameters first: the first `unbound` parameters are exactly the ones without a mapping entry,
-    // mapping = exactly the bound parameters
-    std::set<symbol_t> bound;
+    // mapping = exactly the bound parameters, each with an argument expression.  "The same parameter" means the same symbol
+    // (operator==): parameters of different instantiation levels may share a name, and what the map's own ordering makes
+    // of two symbols is part of what is observed here, not something to rely on -- so entries are counted by scanning.
+    size_t nbound = 0;
     for (size_t j = 0; j < np; ++j) {
-        bool mapped = i.mapping.find(i.parameters[j]) != i.mapping.end();
+        symbol_t pj = i.parameters[j];
+        size_t entries = 0;
+        for (auto& [s, e] : i.mapping) entries += (s == pj);
+        bool mapped = entries > 0;
         if (j < i.unbound && mapped) w.bad("instance:unbound-parameter-mapped", n + "#" + std::to_string(j));
         if (j >= i.unbound && !mapped) w.bad("instance:bound-parameter-unmapped", n + "#" + std::to_string(j));
-        if (j >= i.unbound) bound.insert(i.parameters[j]);
+        if (entries > 1) w.bad("instance:parameter-mapped-twice", n + "#" + std::to_string(j));
+        if (mapped != (i.mapping.find(pj) != i.mapping.end())) w.bad("instance:mapping-lookup-disagrees-with-identity", n + "#" + std::to_string(j));
+        if (j >= i.unbound) ++nbound;
     }
-    for (auto& [s, e] : i.mapping)
-        if (!bound.count(s)) w.bad("instance:mapping-key-not-a-bound-parameter", n + "/" + s.get_name());
-    if (i.mapping.size() != bound.size()) w.bad("instance:mapping-size", n);
+    for (auto& [s, e] : i.mapping) {
+        bool isBound = false;
+        for (size_t j = i.unbound; j < np; ++j) isBound |= (i.parameters[j] == s);
+        if (!isBound) w.bad("instance:mapping-key-not-a-bound-parameter", n + "/" + s.get_name());
+        if (e.empty()) w.bad("instance:mapping-without-argument", n + "/" + s.get_name());
+    }
+    if (i.mapping.size() != nbound) w.bad("instance:mapping-size", n);
     if (i.arguments > np - i.unbound) w.bad("instance:arguments>bound", n);
     // templ points to one of the document's templates
     bool found = false;
